@@ -813,8 +813,13 @@ impl LiveActor {
         let sync = self.sync.clone();
         let metrics = self.metrics.clone();
         self.running_sync_accept.spawn(
-            async move { handle_connection(sync, conn, accept_request_cb, Some(&metrics)).await }
-                .instrument(Span::current()),
+            async move {
+                let res = handle_connection(sync, conn, accept_request_cb, Some(&metrics)).await;
+                #[cfg(iroh_docs_verif)]
+                verif_hooks::delay_accept_result().await;
+                res
+            }
+            .instrument(Span::current()),
         );
     }
 
@@ -1002,5 +1007,23 @@ mod tests {
         drop(a_rx);
         drop(b_rx);
         subscribers.send(Event::NeighborUp(pk)).await;
+    }
+}
+
+/// Verification hooks (only with `--cfg iroh_docs_verif`): let a test hold back the result of a
+/// finished accept session before it reaches the live actor, which emulates an actor whose inbox
+/// is served before the completion (the loop in `run_inner` is `biased` towards the inbox).
+#[cfg(iroh_docs_verif)]
+pub mod verif_hooks {
+    use std::sync::atomic::{AtomicU64, Ordering};
+
+    /// Milliseconds by which the result of every finished accept session is held back.
+    pub static ACCEPT_RESULT_DELAY_MS: AtomicU64 = AtomicU64::new(0);
+
+    pub(super) async fn delay_accept_result() {
+        let ms = ACCEPT_RESULT_DELAY_MS.load(Ordering::SeqCst);
+        if ms > 0 {
+            n0_future::time::sleep(std::time::Duration::from_millis(ms)).await;
+        }
     }
 }
